@@ -370,13 +370,69 @@ def stage_r(ctx, runs):
                                     "ops": b["ops"]})
         if nbad:
             # the real cache did not do what Layer I does on these: the monitors decide
+            nviol = len(ctx.violations)
             judge_trace(ctx, name + "_bad", trace, beh, c["nkeys"], False, "replay:" + name)
             for m in summary["mismatches"][:20]:
                 ctx.drift.append({"source": name, "behaviour": m.get("id"), "what": m.get("what")})
             ctx.traces_ok += n - nbad
+            if len(ctx.violations) == nviol:
+                # drift without a verdict yet: the code is in a state the model does not know.
+                # Explore onwards from there, with the monitor as the only judge.
+                extend_drifting(ctx, name, beh, [m.get("line") for m in summary["mismatches"] if "line" in m], c)
         else:
             # identical to the model's own events, which TLC judged with the monitor in stage mc
             ctx.traces_ok += n
+
+
+def extend_drifting(ctx, name, beh, lines, c):
+    """Random continuations of the behaviours on which the code left the model."""
+    import random
+    rnd = random.Random(ctx.seed * 7919 + len(lines))
+    with open(beh) as f:
+        all_b = f.readlines()
+    picks = sorted(set(lines))
+    if len(picks) > 60:
+        picks = sorted(rnd.sample(picks, 60))
+    ext = os.path.join(ctx.wd, name + ".ext.beh.ndjson")
+    nk = c["nkeys"]
+    n = 0
+    with open(ext, "w") as f:
+        for ln in picks:
+            b = json.loads(all_b[ln])
+            kind = b["cfg"]["kind"]
+            has_exp = b["cfg"].get("ttl", -1) >= 0 or b["cfg"].get("tti", -1) >= 0
+            vid = 50
+            for j in range(20):
+                ops = list(b["ops"])
+                for _ in range(6):
+                    r = rnd.random()
+                    k = rnd.randint(1, nk)
+                    if r < 0.25:
+                        vid += 1
+                        ops.append({"op": "Insert", "k": k, "v": vid, "w": rnd.choice(sorted(c["weights"]))})
+                    elif r < 0.5:
+                        ops.append({"op": "Get", "k": k})
+                    elif r < 0.62:
+                        ops.append({"op": "Contains", "k": k})
+                    elif r < 0.7:
+                        ops.append({"op": "Invalidate", "k": k})
+                    elif r < 0.8 and has_exp:
+                        ops.append({"op": "Advance", "d": 1})
+                    elif r < 0.9:
+                        ops.append({"op": "Sync"} if kind == "sync" else {"op": "Iter"})
+                    else:
+                        ops.append({"op": "Iter"})
+                # finish with a look at every key
+                if kind == "sync":
+                    ops.append({"op": "Sync"})
+                ops += [{"op": "Get", "k": k2} for k2 in range(1, nk + 1)]
+                f.write(json.dumps({"id": n, "cfg": b["cfg"], "ops": ops}) + "\n")
+                n += 1
+    trace = os.path.join(ctx.wd, name + ".ext.trace.ndjson")
+    V.replay_file(ext, trace)
+    log("[extend] %-24s %d continuations of %d drifting behaviours" % (name, n, len(picks)))
+    judge_trace(ctx, name + "_ext", trace, ext, nk, False, "continuations of drifting replays:" + name)
+    os.remove(trace)
 
 
 def stage_v(ctx, runs):
